@@ -38,6 +38,9 @@ def _spec(kind, x: N.NV, lit: str, lit2: str | None):
     if kind == "is_in":
         other = N.NV(False, z3.StringVal(lit2))
         return N.k_or(N.lift(lambda a, b: a == b, x, L), N.lift(lambda a, b: a == b, x, other))
+    if kind in ("equal_none", "not_equal_none"):
+        # comparing with a None literal is a comparison with data that is NULL: the result is NULL for every x (never IS NULL / IS NOT NULL)
+        return N.null_of(N.BOOL)
     if kind == "is_in_none":
         # a None literal among the candidates is data too: (x == lit) OR NULL  (Kleene)
         return N.k_or(N.lift(lambda a, b: a == b, x, L), N.null_of(N.BOOL))
@@ -66,6 +69,10 @@ def _build(kind, xcol, lit, lit2):
         return H.ColFn(H.ops.not_equal, xcol, LC(lit))
     if kind == "is_in":
         return H.ColFn(H.ops.is_in, xcol, LC(lit), LC(lit2))
+    if kind == "equal_none":
+        return H.ColFn(H.ops.equal, xcol, LC(None))
+    if kind == "not_equal_none":
+        return H.ColFn(H.ops.not_equal, xcol, LC(None))
     if kind == "is_in_none":
         return H.ColFn(H.ops.is_in, xcol, LC(lit), LC(None))
     if kind == "concat":
@@ -85,8 +92,8 @@ def _build(kind, xcol, lit, lit2):
     raise KeyError(kind)
 
 
-KINDS = ["equal", "not_equal", "is_in", "is_in_none", "concat", "starts_with", "ends_with", "contains", "replace_all", "case_value", "constant"]
-OP_OF = {"equal": "equal", "not_equal": "not_equal", "is_in": "is_in", "is_in_none": "is_in", "concat": "add", "starts_with": "str_starts_with", "ends_with": "str_ends_with", "contains": "str_contains", "replace_all": "str_replace_all"}
+KINDS = ["equal", "not_equal", "equal_none", "not_equal_none", "is_in", "is_in_none", "concat", "starts_with", "ends_with", "contains", "replace_all", "case_value", "constant"]
+OP_OF = {"equal": "equal", "not_equal": "not_equal", "equal_none": "equal", "not_equal_none": "not_equal", "is_in": "is_in", "is_in_none": "is_in", "concat": "add", "starts_with": "str_starts_with", "ends_with": "str_ends_with", "contains": "str_contains", "replace_all": "str_replace_all"}
 
 
 def make_run(kind, lit, lit2, backend):
@@ -187,6 +194,8 @@ def make_replayer(kind, lit, lit2, backend):
             "not_equal": lambda: None if xv is None else xv != lit,
             "is_in": lambda: None if xv is None else xv in (lit, lit2),
             "is_in_none": lambda: None if xv is None else (True if xv == lit else None),
+            "equal_none": lambda: None,
+            "not_equal_none": lambda: None,
             "concat": lambda: None if xv is None else xv + lit,
             "starts_with": lambda: None if xv is None else xv.startswith(lit),
             "ends_with": lambda: None if xv is None else xv.endswith(lit),
@@ -216,6 +225,8 @@ def obligations(tier):
     for kind in KINDS:
         for lit in lits:
             lit2 = {"is_in": "zz", "replace_all": "X", "case_value": lit + "'"}.get(kind)
+            if kind in ("equal_none", "not_equal_none") and lit != lits[0]:
+                continue  # these two do not depend on the string literal
             if kind == "replace_all" and lit == "":
                 continue  # replacing the empty string is engine specific (not a documented behaviour)
             for backend in BACKENDS:
